@@ -7,12 +7,50 @@ TYPES = [
 ]
 
 
+RTYPES = [(r'^nano::tensor2d_t$|tensor_t<nano::tensor_vector_storage_t, double, 2', 'struct nv_tensor2d'),
+          (r'^nano::indices_t$|tensor_t<nano::tensor_vector_storage_t, long, 1', 'struct nv_indices'),
+          (r'^nano::rwlearners_t$|std::vector<std::unique_ptr<nano::wlearner_t', 'struct nv_vec'),
+          (r'^nano::solver_state_t$', 'struct nv_state'), (r'^nano::solver_status$', 'int32_t'),
+          (r'__normal_iterator<\s*(const )?std::unique_ptr<nano::wlearner_t', 'int64_t'),
+          (r'tensor_t<nano::tensor_(c|m)(map|array)_storage_t, double, 2', 'struct nv_slice2')]
+
+
+def erase_note_hook(P, n):
+    # after m_wlearners.erase(...) the ghost nv_kept records how many learners are kept (before merging)
+    return None
+
+
+def boost_targets():
+    nparams = lambda k: (lambda d: len([c for c in d['inner'] if c['kind'] == 'ParmVarDecl']) == k)
+    calls = [(r'^mean_error\|', 'nv_mean_any'), (r'^mean_loss\|', 'nv_mean_any'),
+             (r'^operator\(\)\|.*tensor_vector_storage_t, double, 2', '(*nv_t2_at({&0}, {1}, {2}))'),
+             (r'^operator\*\|.*\|(const )?nano::tensor2d_t \*|^operator\*\|', None),
+             (r'^operator\+\|.*__normal_iterator', '({0} + {1})'),
+             (r'^operator=\|.*\|nano::tensor_t<nano::tensor_vector_storage_t, double, 2>\|#2', 'nv_t2_assign_slice({&0}, {1})'),
+             (r'^merge\|', 'nv_wlearner_merge({&0})'), (r'^move\|', '{0}'), (r'^ctor\|.*__normal_iterator', '{0}')]
+    calls = [c for c in calls if c[1] is not None]
+    members = [(r'^(fcalls|gcalls)\|nano::solver_state_t', 'nv_state_calls'), (r'^status\|nano::solver_state_t', 'nv_state_status'),
+               (r'^update\|.*result_t.*#3', 'result_update3'), (r'^emplace_back\|std::vector', 'nv_vec_emplace_back({self})'),
+               (r'^begin\|std::vector', 'nv_vec_begin'), (r'^end\|std::vector', 'nv_vec_end'),
+               (r'^erase\|std::vector', '(nv_vec_erase({self}, {0}, {1}), nv_note_kept({self}))'),
+               (r'^slice\|.*tensor_vector_storage_t, double, 2', 'nv_t2_slice')]
+    kw = dict(self_struct='struct nv_result', types=RTYPES, calls=calls, members=members,
+              opaque=[r'unique_ptr<nano::wlearner_t', r'rwlearner_t'])
+    u3 = lambda: Fn('result_update3', 'src/gboost/result.cpp', 'update', flt='result_t::update', select=nparams(3), **kw)
+    u4 = Fn('result_update4', 'src/gboost/result.cpp', 'update', flt='result_t::update', select=nparams(4), **kw)
+    dn = Fn('result_done', 'src/gboost/result.cpp', 'done', flt='result_t::done', **kw)
+    H = 'specs/C11/boost.h'
+    return [Target('result_update3', [u3()], H), Target('result_update4', [u4, u3()], H, replace=['result_update3']),
+            Target('result_done', [dn], H)]
+
+
 def build(tier):
     done = Fn('early_stopping_done', 'src/gboost/early_stopping.cpp', 'done', flt='early_stopping_t::done',
               self_struct='struct nv_early_stopping', types=TYPES,
               calls=[(r'^mean_error\|', 'nv_mean_error'), (r'^operator=\|.*tensor_vector_storage_t, double, 2', 'nv_tensor2d_assign')],
               members=[(r'^size\|.*std::vector', 'nv_vec_size'), (r'^size\|.*(indices_t|tensor_vector_storage_t, long, 1|tensor_base_t<long, 1)', 'nv_indices_size')])
     targets = [Target('early_stopping_done', [done], 'specs/C11/early_stopping.h')]
+    targets += boost_targets()
     return {
         'targets': targets, 'vcs': [],
         'decided': ['early-stopping monitor transition = specification, for every observation and prior state'],
